@@ -20,6 +20,11 @@ PART = {
     text="(F97 / F98) after a row-group flush that failed half-way, and after a write_batch that failed past its argument checks, no later flush and no close reports OK, whatever calls follow (C05_failed_flush_poisons_close, C05_failed_batch_poisons_close; a batch refused by the argument checks changes nothing: C05_rejected_batch_harmless; the pinned writer repeated the flush, or carried on after the half-taken batch, and reported an invalid file complete: C05_regression_F97, C05_regression_F98, both found by the c05alloc component)",
     rule="c05alloc: a well-formed history executed with ONE allocation failure inside a row-group flush or the close (every k-th request of those calls; quick: every (K/25)-th), a failed carquet_writer_new_row_group is called again; the same with the failure allowed inside write_batch calls too (wb=1; the caller carries on with the rest of the history); whenever close said OK the file goes to the independent reader (`wrspec`: the table of the history if every call said OK, structural validity otherwise)",
   ),
+  "C06": dict(
+    imports=[], obligations=[], components=["rle"],
+    fidelity={"Impl.Rle (dependency: the dictionary indices and levels of every page go through the hybrid decoder)": "exact"},
+    rule="rle (shared with C11 / C12 / C08): hybrid streams of every bit width 0..32 - RLE runs whose repeated value needs 1, 2, 3 or 4 bytes, bit-packed groups, mixed - decoded by the real decoders (carquet_rle_decode_all is the decoder of the dictionary indices of a data page) and compared with the model the whole-file theorem composes",
+  ),
   "C17": dict(
     imports=[], obligations=[], components=["refread"], pregen={"refread": "reffiles"},
     rule="refread (shared with C06): the reference files with nested schemas (repeated / optional groups to depth 3) are read column by column through carquet_reader_get_column in three modes: every leaf the schema lists must be readable as a column and deliver the stored levels",
